@@ -5,7 +5,10 @@ Correspondence stream (engine `c10`, model `Model/SpecMeta.lean`):
 * `meta`   a real materialisation (`materializer.get_model_matrix(...)`); the harness forwards the
            recorded `model_spec.structure` (per row: the term's factor expressions in the term's own
            order, the variable names of every scoped factor, the recorded column names) and
-           `list(model_spec.formula)`; the model recomputes `column_names`, the labels the matrix
+           `list(model_spec.formula)`. The variable names of a scoped factor are NOT taken from the code's
+           own records (`EvaluatedFactor.variables`) but read by the harness from the factor's source text
+           (`source_uses`: Python's `ast`, every Name in Load context, dotted chains kept whole; the code's
+           records are forwarded only for a factor this reader cannot decide). The model recomputes `column_names`, the labels the matrix
            carries, `column_indices`, `term_indices`, `term_slices`, `term_variables`,
            `variable_terms`, `variable_indices` and the outcome of every probe: lookups by Term
            object (own factor order and reversed), by printed form, by sorted form, by column name,
@@ -18,13 +21,19 @@ implementation's own objects: labels of the matrix vs `column_names`; the values
 concatenated in dict order are `0..ncols-1`, each is the block of its structure row, `term_slices`
 select the same; lookups by object / printed form / column name return exactly the block computed
 by walking the structure; `variable_indices[v]` is exactly the set of columns owned by terms one of
-whose factors uses `v` according to `materializer.factor_cache[expr].variables`;
+whose factors uses `v`, judged twice: according to `materializer.factor_cache[expr].variables` (the code's
+own per-factor record: consistency of the derived maps) and according to `source_uses` (the harness's own
+reading of the factor's source text, for every name that resolves in the data, the user context or the
+transforms namespace: a variable passed positionally, by keyword, through `*`/`**`, inside a nested
+call, subscript or conditional is used by the term);
 `spec.subset(ts).get_model_matrix(data)` has exactly the parent's columns (names and values) of
 those terms, in the order of the subset's formula, on the original data and on a second data set.
 """
 from __future__ import annotations
 
+import ast
 import re
+import types
 
 import numpy
 import pandas
@@ -47,7 +56,11 @@ TRUSTED = [
     "Term.FACTOR_MATCHER is compared with the real regular expression on every run, stream `split`)",
     "`hash(str)` is modelled as injective on strings (a 64-bit hash collision between two different strings is outside the model)",
     "parameters of the model: the recorded `structure` itself (which columns a term generates is C02/C03), the parse of a "
-    "`terms_spec` into a term list (C01) and the per-factor variable sets (C17); the values regenerated for one structure "
+    "`terms_spec` into a term list (C01) and the per-factor variable sets; these are read by the harness from each factor's "
+    "source text with Python's `ast` (`source_uses`: lookup factor = its name, Python factor = every Name in Load context "
+    "with its longest dotted chain, back-quoted names restored) and NOT from formulaic's own extraction, so `ast.parse` and "
+    "that 40-line reader are trusted; for a factor the reader cannot decide (names bound inside the expression, back-quotes "
+    "next to triple-quoted strings) the code's own record is forwarded and the oracle judges nothing; the values regenerated for one structure "
     "row (`gen` in `Model.SpecMeta.replay`) — that a replayed row reproduces the original values is C04 and is checked here "
     "only by the oracle on the real code",
     "pandas/numpy/scipy/narwhals assembly of the matrix is modelled as positional (`list`) or name-keyed (`dict`) assembly",
@@ -65,10 +78,16 @@ RULE = (
     "and adversarial columns named `A[T.b]`, `Intercept`, `a:b`, `A[b]`; formulas of 1-5 terms over names, C(), contrasts, "
     "poly(x,3), bs(x,df=4), center/scale, I(), {}, np.log, a[:] (an expression containing ':'), numeric literal scalings incl. 0.0, "
     "interactions up to degree 3 with factors in random (non-alphabetical) order, intercept on/off; or a derivative formula "
-    "(Formula.differentiate); or an explicit term list with repeated / permuted terms; x ensure_full_rank x output in "
+    "(Formula.differentiate); or an explicit term list with repeated / permuted terms; every materialisation has a user "
+    "context (scalars lo,hi,deg,k, flags rw,on, a function mix(u,w,s), a namespace ns with ns.f/ns.lo, a dict kw, a tuple pair, "
+    "level lists lvA/lvB, a contrasts object cs) and with probability 0.1 per factor (0.6 in a dedicated stream of 60 cases) a "
+    "factor is a generated Python call: mix/ns.f/np.clip/np.where/scale/poly/bs/C/hashed whose arguments (data columns incl. "
+    "back-quoted ones, context scalars, expressions `a + lo`, `[a][0]`, `dict(q=a)['q']`, `a[::-1]`, `(a if deg else x)`, "
+    "nested calls to depth 2) are each passed positionally or BY KEYWORD at random (keyword order shuffled), or through "
+    "`*pair` / `**kw`, optionally wrapped in I()/center()/{}/np.abs(); x ensure_full_rank x output in "
     "pandas/numpy/sparse x materializer pandas/narwhals x cluster_by. split: strings over {a,b,:,`,newline,[,]}. "
     "non-trivial = the structure has an interaction whose factors are not sorted, or a zero-column term, or a multi-column "
-    "term; distinct by canonical JSON"
+    "term, or a call with a keyword argument; distinct by canonical JSON"
 )
 
 FACTOR_MATCHER = re.compile(r"(?:^|(?<=:))(`?)(?P<factor>[^`]+?)\1(?=:|$)")
@@ -128,8 +147,128 @@ def make_frame(data):
     return pandas.DataFrame(cols)
 
 
-def gen_atom(rng, data):
+# ---- Python-call factors whose arguments are passed positionally, by keyword, through `*`/`**`, nested in other calls,
+# subscripts, conditionals ...; the names they read are data columns, values of the user context (`make_context`) and
+# callables of the user context / the transforms namespace.
+
+SCALARS = ["lo", "hi", "ns.lo", "2.0", "lo + 1", "-hi"]
+
+
+def gen_arr(rng, data, depth):
+    """source text of a numeric vector argument"""
+    base = rng.choice(["a", "b", "x"])
+    qn = [ADVERSARIAL[k] for k in data["num"] if k in ADVERSARIAL and ADVERSARIAL[k].startswith("`")]
+    r = rng.random()
+    if qn and r < 0.12:
+        return rng.choice(qn)
+    if depth < 2 and r < (0.25, 0.12)[depth]:
+        return gen_call(rng, data, depth + 1, numeric=True)
+    if r < 0.50:
+        return rng.choice([f"{base} + lo", f"{base}[::-1]", f"[{base}][0]", f"dict(q={base})['q']",
+                           f"({base} if deg else x)", f"-{base}", f"{base} * ns.lo"])
+    return base
+
+
+def render_call(rng, fname, params, first_positional=False, extra=(), max_positional=99):
+    """params: [(name, source)] in signature order; every argument is passed positionally or by keyword at random (once
+    one is passed by keyword all later ones are; keyword arguments are then shuffled)"""
+    pos, kws, pos_ok = [], [], True
+    for i, (name, src) in enumerate(params):
+        if pos_ok and i < max_positional and ((first_positional and i == 0) or rng.random() < 0.4):
+            pos.append(src)
+        else:
+            pos_ok = False
+            kws.append(f"{name}={src}")
+    rng.shuffle(kws)
+    return f"{fname}({', '.join(pos + kws + list(extra))})"
+
+
+def gen_call(rng, data, depth=0, numeric=False):
+    sc = lambda: rng.choice(SCALARS)
+    arr = lambda: gen_arr(rng, data, depth)
+    arr_or_sc = lambda: arr() if rng.random() < 0.5 else sc()
+    kinds = ["mix", "mix", "mix", "ns.f", "np.clip", "np.where", "star", "dstar", "scale"]
+    if not numeric:
+        kinds += ["poly", "bs", "C", "C", "hashed"]
+    kind = rng.choice(kinds)
+    if kind == "mix":
+        ps = [("u", arr())]
+        if rng.random() < 0.8:
+            ps.append(("w", arr_or_sc()))
+        if rng.random() < 0.6:
+            ps.append(("s", arr_or_sc()))
+        out = render_call(rng, "mix", ps)
+    elif kind == "ns.f":
+        out = render_call(rng, "ns.f", [("u", arr()), ("w", arr_or_sc())])
+    elif kind == "np.clip":
+        out = render_call(rng, "np.clip", [("a", arr()), ("a_min", sc()), ("a_max", arr_or_sc())], first_positional=True)
+    elif kind == "np.where":
+        out = f"np.where({arr()} > {sc()}, {arr()}, {arr_or_sc()})"
+    elif kind == "star":
+        out = rng.choice(["mix(*pair)", "mix(*pair, s={})".format(arr_or_sc())])
+    elif kind == "dstar":
+        out = render_call(rng, "mix", [("u", arr())] + ([("s", arr_or_sc())] if rng.random() < 0.5 else []), extra=["**kw"],
+                          max_positional=1)
+    elif kind == "scale":
+        # the argument is never a nested call: a call may return a constant vector, whose scaling is 0/0 = null, and
+        # rows with nulls are dropped from the parent but not from a subset without that term (null handling is C06)
+        ps = [("data", gen_arr(rng, data, 2)), ("center", rng.choice(["rw", "on"]))]
+        if rng.random() < 0.5:
+            ps.append(("scale", rng.choice(["rw", "on"])))
+        out = render_call(rng, "scale", ps, first_positional=True)
+    elif kind == "poly":
+        ps = [("x", rng.choice(["x", "x", "x + lo"])), ("degree", rng.choice(["deg", "deg", "2", "deg + 1"]))]
+        if rng.random() < 0.4:
+            ps.append(("raw", rng.choice(["rw", "on"])))
+        out = render_call(rng, "poly", ps, first_positional=True)
+    elif kind == "bs":
+        ps = [("x", "x"), ("df", rng.choice(["k", "k", "k + 1"]))]
+        if rng.random() < 0.3:
+            ps.append(("degree", "deg"))
+        out = render_call(rng, "bs", ps, first_positional=True, max_positional=2)
+    elif kind == "C":
+        cat = rng.choice(["A", "B"])
+        ps = [("data", cat)]
+        if rng.random() < 0.6:
+            ps.append(("contrasts", rng.choice(["contr.sum", "contr.treatment", "contr.helmert",
+                                               f"contr.treatment(base=lv{cat}[0])", "cs"])))
+        extra = [f"levels=lv{cat}"] if rng.random() < 0.6 else []
+        out = render_call(rng, "C", ps, first_positional=True, extra=extra)
+    else:
+        out = render_call(rng, "hashed", [("data", rng.choice(["A", "B"])), ("levels", rng.choice(["k", "k - 1"]))],
+                          first_positional=True)
+    if depth == 0 and kind not in ("poly", "bs", "C", "hashed") and rng.random() < 0.25:
+        out = rng.choice(["I({})", "center({})", "{{{}}}", "np.abs({})"]).format(out)
+    return out
+
+
+def gen_ctx(rng):
+    return {"lo": rng.choice([-1.0, 0.5, 2.0]), "hi": rng.choice([7.0, 9.0]), "deg": rng.choice([2, 3]),
+            "k": rng.choice([4, 5])}
+
+
+def make_context(c):
+    """the user context of a case: scalars from the case, plus fixed helpers"""
+    from formulaic.transforms.contrasts import SumContrasts
+
+    g = c["ctx"]
+    data = c["data"]
+    return {
+        "lo": g["lo"], "hi": g["hi"], "deg": g["deg"], "k": g["k"], "rw": False, "on": True,
+        "mix": lambda u, w=1.0, s=0.0: u * w + s,
+        "ns": types.SimpleNamespace(lo=1.5, f=lambda u, w=1.0: u * w),
+        "kw": {"w": 2.0},
+        "pair": (numpy.array(data["num"]["a"], dtype=float), 3.0),
+        "lvA": list(data["cat"]["A"]["levels"]),
+        "lvB": list(data["cat"]["B"]["levels"]),
+        "cs": SumContrasts(),
+    }
+
+
+def gen_atom(rng, data, p_call=0.0):
     adv = [ADVERSARIAL[k] for k in data["num"] if k in ADVERSARIAL]
+    if rng.random() < p_call:
+        return gen_call(rng, data)
     r = rng.random()
     if adv and r < 0.25:
         return rng.choice(adv)
@@ -138,11 +277,14 @@ def gen_atom(rng, data):
     return rng.choice(NUM_ATOMS)
 
 
-def gen_term(rng, data):
+def gen_term(rng, data, p_call=0.0):
     k = rng.choice([1, 1, 2, 2, 2, 3])
     atoms = []
+    wide = lambda t: t.startswith(("poly(", "bs(", "hashed("))
     for _ in range(k):
-        a = gen_atom(rng, data)
+        a = gen_atom(rng, data, p_call)
+        if p_call and wide(a) and any(wide(t) for t in atoms):
+            a = gen_call(rng, data, numeric=True)  # one many-column call per term keeps the column count (and the run time) small
         if a not in atoms:
             atoms.append(a)
     if rng.random() < 0.15:
@@ -150,10 +292,10 @@ def gen_term(rng, data):
     return atoms
 
 
-def gen_formula(rng, data):
+def gen_formula(rng, data, p_call=0.0):
     terms, seen = [], set()
     for _ in range(rng.randint(1, 5)):
-        atoms = gen_term(rng, data)
+        atoms = gen_term(rng, data, p_call)
         key = frozenset(a for a in atoms if not a[0].isdigit())
         if key in seen:
             continue
@@ -163,11 +305,11 @@ def gen_formula(rng, data):
     return icpt + " + ".join(terms)
 
 
-def gen_meta_case(rng, tier):
+def gen_meta_case(rng, tier, p_call=0.1):
     data = gen_data(rng)
     r = rng.random()
     if r < 0.72:
-        build = {"formula": gen_formula(rng, data)}
+        build = {"formula": gen_formula(rng, data, p_call)}
     elif r < 0.86:
         vs = ["a", "b", "x"]
         terms, seen = [], set()
@@ -182,7 +324,7 @@ def gen_meta_case(rng, tier):
     else:
         terms = []
         for _ in range(rng.randint(1, 4)):
-            t = gen_term(rng, data)
+            t = gen_term(rng, data, p_call)
             terms.append(":".join(t))
             if rng.random() < 0.35:
                 terms.append(":".join(t if rng.random() < 0.5 else t[::-1]))
@@ -202,6 +344,7 @@ def gen_meta_case(rng, tier):
         kind="meta",
         data=data,
         data2=second_data(rng, data),
+        ctx=gen_ctx(rng),
         build=build,
         efr=rng.random() < 0.7,
         output=rng.choice(["pandas", "pandas", "numpy", "sparse"]),
@@ -226,6 +369,9 @@ def cases(rng, tier):
     n = {"quick": 140, "thorough": 1500, "search": 60}[tier]
     for i in range(n):
         yield gen_meta_case(rng, tier)
+    # call stream: most factors are Python calls taking data columns / context values positionally, by keyword, via * and **
+    for i in range({"quick": 60, "thorough": 700, "search": 40}[tier]):
+        yield gen_meta_case(rng, tier, p_call=0.6)
     for i in range({"quick": 300, "thorough": 4000, "search": 0}[tier]):
         yield gen_split_case(rng)
     # malformed stream: a formula that names a column that does not exist
@@ -240,6 +386,9 @@ def describe(c):
         return "split"
     b = c["build"]
     how = "formula" if "formula" in b else ("diff" if "diff" in b else "terms")
+    text = b.get("formula") or " + ".join(b.get("terms", []))
+    if "=" in text or "*" in text:
+        how += "+kwcall"
     return f"meta:{how}:{c['mat']}:{c['output']}"
 
 
@@ -252,7 +401,7 @@ def nontrivial(c):
         fs = t.split(":")
         if len(fs) > 1 and fs != sorted(fs):
             return True
-    return any(k in text for k in ("poly", "bs(", "contr.", "C("))
+    return any(k in text for k in ("poly", "bs(", "contr.", "C(", "="))
 
 
 # ----------------------------------------------------------------------------- implementation side
@@ -300,6 +449,79 @@ def _ncols(mm):
     return int(mm.shape[1])
 
 
+_BACKQUOTED = re.compile(r"""("(?:\\.|[^"\\])*"|'(?:\\.|[^'\\])*')|`([^`]*)`""")
+_BINDERS = (ast.Lambda, ast.ListComp, ast.SetComp, ast.DictComp, ast.GeneratorExp, ast.NamedExpr)
+
+
+def source_uses(expr, method):
+    """The names a factor reads, derived from its SOURCE TEXT alone with Python's `ast` (independent of
+    formulaic.utils.variables): a factor looked up by name reads that name; a literal reads nothing; in a Python factor
+    every `Name` in Load context is read, wherever it stands (positional or keyword argument, `*`/`**` argument,
+    subscript, operand, nested call ...), and it is reported under the library's naming convention for variables: the
+    longest `name.attr.attr` chain it heads (`np.log`, `ns.lo`); a back-quoted name (outside string literals) stands
+    for itself. Returns a sorted list, or None when this reader cannot decide (names bound inside the expression,
+    back-quotes next to triple-quoted strings or heading an attribute chain, unparsable text) -- then nothing is
+    demanded for that factor."""
+    if method == "literal":
+        return []
+    if method == "lookup":
+        return [expr]
+    if "`" in expr and ('"""' in expr or "'''" in expr):
+        return None
+    quoted = {}
+
+    def sub(m):
+        if m.group(1) is not None:  # a string literal stays as it is
+            return m.group(1)
+        key = f"_fvq{len(quoted)}_"
+        quoted[key] = m.group(2)
+        return f" {key} "
+
+    src = _BACKQUOTED.sub(sub, expr).strip()
+    if any(k in expr for k in quoted):
+        return None
+    try:
+        tree = ast.parse(src, mode="eval")
+    except SyntaxError:
+        return None
+    if any(isinstance(n, _BINDERS) for n in ast.walk(tree)):
+        return None
+    found, undecided = set(), []
+
+    def chain(node):
+        if isinstance(node, ast.Name):
+            return node.id
+        if isinstance(node, ast.Attribute):
+            base = chain(node.value)
+            return None if base is None else base + "." + node.attr
+        return None
+
+    def visit(node):
+        if isinstance(node, ast.Attribute):
+            name = chain(node)
+            if name is not None:
+                if name.split(".")[0] in quoted:
+                    undecided.append(name)
+                found.add(name)
+                return
+        elif isinstance(node, ast.Name):
+            if not isinstance(node.ctx, ast.Load):
+                undecided.append(node.id)
+            found.add(quoted.get(node.id, node.id))
+            return
+        for child in ast.iter_child_nodes(node):
+            visit(child)
+
+    visit(tree)
+    return None if undecided else sorted(found)
+
+
+def _transform_names():
+    from formulaic.transforms import TRANSFORMS
+
+    return list(TRANSFORMS)
+
+
 def impl(c):
     if c["kind"] == "split":
         return {"factors": [m.group("factor") for m in __import__("formulaic").parser.types.Term.FACTOR_MATCHER.finditer(c["s"])]}
@@ -316,7 +538,8 @@ def impl(c):
             formula = Formula(b["diff"]["formula"]).differentiate(*b["diff"]["wrt"])
         else:
             formula = Formula(list(b["terms"]))
-        m = FormulaMaterializer.for_materializer(c["mat"])(df)
+        ctx = make_context(c) if "ctx" in c else {}
+        m = FormulaMaterializer.for_materializer(c["mat"])(df, context=ctx)
         mm = m.get_model_matrix(
             formula, ensure_full_rank=c["efr"], output=c["output"],
             cluster_by="numerical_factors" if c["cluster"] else "none",
@@ -329,6 +552,7 @@ def impl(c):
         dict(
             term=_exprs(s.term),
             svars=[[sorted(str(v) for v in (sf.factor.variables or ())) for sf in st.factors] for st in s.scoped_terms],
+            sexprs=[[sf.factor.expr for sf in st.factors] for st in s.scoped_terms],
             columns=[str(x) for x in s.columns],
         )
         for s in spec.structure
@@ -342,6 +566,11 @@ def impl(c):
         f.expr: sorted(str(v) for v in ((m.factor_cache[f.expr].variables if f.expr in m.factor_cache else None) or ()))
         for s in spec.structure for f in s.term.factors
     }
+    # the harness's own reading of each factor's source text (not formulaic's variable extraction)
+    out["uses"] = {
+        f.expr: source_uses(f.expr, f.eval_method.value) for s in spec.structure for f in s.term.factors
+    }
+    out["scope"] = sorted(set(df.columns) | set(ctx) | set(_transform_names()))
     out["column_names"] = list(spec.column_names)
     out["column_indices"] = [[k, v] for k, v in spec.column_indices.items()]
     out["term_indices"] = [[_exprs(k), list(v)] for k, v in spec.term_indices.items()]
@@ -370,7 +599,8 @@ def impl(c):
         probes.append({"k": "str", "s": n})
     for s in c["junk"]:
         probes.append({"k": "str", "s": s})
-    for v in sorted(set(x for vs in out["fvars"].values() for x in vs) | {"zz"}):
+    for v in sorted(set(x for vs in out["fvars"].values() for x in vs)
+                    | set(x for vs in out["uses"].values() for x in (vs or ())) | {"zz"}):
         probes.append({"k": "var", "s": v})
     specs = []
     for sb in c["subsets"]:
@@ -432,10 +662,10 @@ def impl(c):
         )})
         rec = dict(formula=[_exprs(t) for t in sub.formula])
         try:
-            m2 = sub.get_model_matrix(df)
+            m2 = sub.get_model_matrix(df, context=ctx)
             rec.update(labels=_labels(m2, c["output"]), ncols=_ncols(m2), values=_dense(m2))
-            p3 = spec.get_model_matrix(df2)
-            m3 = sub.get_model_matrix(df2)
+            p3 = spec.get_model_matrix(df2, context=ctx)
+            m3 = sub.get_model_matrix(df2, context=ctx)
             rec.update(parent2=_dense(p3), values2=_dense(m3))
         except Exception as e:
             rec["mat_error"] = type(e).__name__ + ": " + str(e)[:120]
@@ -451,9 +681,17 @@ def request(c, o):
         return dict(op="split", s=c["s"])
     if "error" in o or "harness_exception" in o:
         return dict(op="meta", structure=[], formula=[], probes=[], materializer=c["mat"], output=c["output"])
+    uses = o.get("uses", {})
+    structure = []
+    for r in o["structure"]:
+        r = dict(r)
+        sx = r.pop("sexprs", None)
+        if sx is not None and all(uses.get(e) is not None for st in sx for e in st):
+            r["svars"] = [[list(uses[e]) for e in st] for st in sx]
+        structure.append(r)
     return dict(
         op="meta",
-        structure=o["structure"],
+        structure=structure,
         formula=o["formula"],
         probes=o["probes"],
         materializer=c["mat"],
@@ -639,6 +877,31 @@ def _reasons(c, o):
         if p["k"] == "var" and p["s"] in vi:
             if r["vi"] != {"ok": vi[p["s"]]} or r["gvi"] != {"ok": vi[p["s"]]}:
                 yield f"variable indices: lookup of {p['s']!r} gave {r}"
+    # (4b) the same clause against the harness's own reading of the factors' source text (`source_uses`): "the terms
+    # using that variable" are the terms one of whose factors reads the name. Only names that resolve in the data, the
+    # user context or the transforms namespace are judged (what else a Python expression may read -- builtins -- is
+    # not a variable the property speaks about); a variable is judged only if every factor of every term was decidable.
+    uses = o.get("uses")
+    if uses is not None and all(uses.get(e) is not None for (t, a, b) in blocks for e in t):
+        scope = set(o["scope"])
+        judged = {v for vs in uses.values() for v in vs} | set(vi)
+        wanted = {}
+        for v in sorted(judged):
+            if v.split(".")[0] not in scope:
+                continue
+            if any(_key(t) in dup_terms and any(v in uses[e] or v in o["fvars"].get(e, []) for e in t) for (t, a, b) in blocks):
+                continue  # C10-F1, as above
+            want = sorted(set(i for (t, a, b) in blocks for i in range(a, b) if any(v in uses[e] for e in t)))
+            wanted[v] = want
+            if vi.get(v, []) != want:
+                users = [":".join(t) for (t, a, b) in blocks if any(v in uses[e] for e in t)]
+                yield (f"variable indices: variable_indices[{v!r}] = {vi.get(v)}, but the terms whose source reads {v!r} "
+                       f"({users}) own columns {want}")
+        for p, r in zip(o["probes"], o["probe_out"]):
+            if p["k"] == "var" and wanted.get(p["s"]):
+                want = wanted[p["s"]]
+                if r["vi"] != {"ok": want} or r["gvi"] != {"ok": want}:
+                    yield f"variable indices: lookup of {p['s']!r} gave {r}, the terms reading it own columns {want}"
     # (5) subset regenerates the parent's columns
     subs = iter(o["subs"])
     for p, r in zip(o["probes"], o["probe_out"]):
@@ -690,13 +953,15 @@ LEVEL_TEXT = (
     "distinct); term ranges are the consecutive blocks of the structure rows and partition [0, ncols); lookups by Term object, "
     "by printed form (Python dict probing modelled as hash-then-__eq__, FACTOR_MATCHER modelled as the regex behaves) and by "
     "column name return exactly the block/position; variable_indices[v] is exactly the increasing list of columns owned by rows "
-    "using v; subset returns the parent's rows of the chosen terms, so its column names are the parent's names at "
+    "using v (which rows use v enters the model from the harness's own `ast` reading of the factor source, so a variable passed "
+    "by keyword / * / ** / inside a nested call counts; the oracle checks the same on the real maps); subset returns the parent's rows of the chosen terms, so its column names are the parent's names at "
     "get_term_indices. The model is tied to the code by a differential correspondence on every run; regenerated VALUES of a "
     "subset are checked on the real code by the oracle."
 )
 LEVEL_NOTE = (
     "Trusted: Lean kernel + propext/Quot.sound; the hand model of model_spec.py validated by correspondence on generated "
     "formulas (non-alphabetical interactions, zero-column terms, multi-column transforms, adversarial column names, "
+    "Python-call factors with positional/keyword/starred arguments over data columns and context values, "
     "pandas/numpy/sparse, pandas/narwhals materializers); hash(str) injective; which columns a term generates and what a "
     "replayed row evaluates to are parameters (C02/C03/C04)."
 )
